@@ -926,6 +926,44 @@ def handleDemoObj : List String → Option String
     return showListOr showDemoObs " | " obs
   | [] => none
 
+/-- `<a>=<rat>,<a>=<rat>,…` (`-` or empty: no entry) → the items of `pop_sizes` in insertion order -/
+def parseEKSizes? (s : String) : Option (Dict Nat Rat) :=
+  parseList? (fun t => match t.splitOn "=" with
+    | [a, v] => match a.toNat?, parseRat? v with
+      | some a, some v => some (a, v)
+      | _, _ => none
+    | _ => none) s
+
+/-- `<a>><b>=<rat>,…` (`-` or empty: no entry) → the items of `migration_rates` in insertion order -/
+def parseEKMig? (s : String) : Option (Dict (Nat × Nat) Rat) :=
+  parseList? (fun t => match t.splitOn "=" with
+    | [ab, v] => match ab.splitOn ">", parseRat? v with
+      | [a, b], some v => match a.toNat?, b.toNat? with
+        | some a, some b => some ((a, b), v)
+        | _, _ => none
+      | _, _ => none
+    | _ => none) s
+
+/-- one epoch: the two tokens `s:<sizes>` `m:<mig>`; the constructor `Epoch.__init__` is applied (`EpochKey.mkEpoch`:
+missing pairs `(p, q)`, `p ≠ q`, appended with rate 0 — the identity on the epochs `Demography.epochs` yields) -/
+def parseEKEpoch? (s m : String) : Option Epoch := do
+  let s ← if s.startsWith "s:" then some (s.drop 2).toString else none
+  let m ← if m.startsWith "m:" then some (m.drop 2).toString else none
+  return EpochKey.mkEpoch 0 none (← parseEKSizes? s) (← parseEKMig? m)
+
+/-- `epochkey <variant current|combinations> s:<sizes> m:<mig> ; s:<sizes> m:<mig>` → `eq` | `ne`: whether the two
+`Epoch` objects built from these constructor arguments compare equal (`__eq__`, i.e. equal `__hash__`) under the given
+variant of `Epoch.__hash__`.  Populations are numbered by the harness (position of the name among the sorted names of
+BOTH epochs); `<sizes>` = `<pop>=<rat>,…`, `<mig>` = `<src>><dst>=<rat>,…`, both IN DICT (insertion) ORDER, `-` if empty. -/
+def handleEpochKey : List String → Option String
+  | [v, s1, m1, ";", s2, m2] => do
+    let v ← if v == "current" then some EpochKey.Variant.current
+      else if v == "combinations" then some EpochKey.Variant.combinations else none
+    let e1 ← parseEKEpoch? s1 m1
+    let e2 ← parseEKEpoch? s2 m2
+    return if EpochKey.eqUnder v e1 e2 then "eq" else "ne"
+  | _ => none
+
 def handle (c : Ctx) (line : String) : Ctx × String :=
   let toks := (line.trimAscii.toString.splitOn " ").filter (· != "")
   let bad := (c, "bad-request")
@@ -1141,6 +1179,22 @@ def handle (c : Ctx) (line : String) : Ctx × String :=
   | "serial" :: toks => (c, (handleSerial toks).getD "bad-request")
   | "marginals" :: toks => (c, (handleMarginals c toks).getD "bad-request")
   | "demoobj" :: toks => (c, (handleDemoObj toks).getD "bad-request")
+  | "epochkey" :: toks => (c, (handleEpochKey toks).getD "bad-request")
+  | ["loss", kind, a, b] =>
+    -- PGModel/Loss.lean: exact value of the norm losses (numpy needs equal shapes: unequal lengths are a bad request)
+    match parseList? parseRat? a, parseList? parseRat? b with
+    | some a, some b =>
+      if a.length != b.length then bad else
+      match kind with
+      | "l1" => (c, showRat (Loss.l1 a b))
+      | "linf" => (c, showRat (Loss.linf a b))
+      | "sql2" => (c, showRat (Loss.sqL2 a b))
+      | _ => bad
+    | _, _ => bad
+  | ["lossmask", k] =>
+    match parseList? parseRat? k with
+    | some k => (c, showListOr (fun (b : Bool) => if b then "1" else "0") "," (Loss.skipZeroMask k))
+    | none => bad
   | ["selftest"] =>
     -- exp of a nilpotent matrix is exact; exp(A)·exp(A) = exp(2A); rows of exp(Q) sum to one
     let nil := FMat.ofFn 3 fun i j => if j = i + 1 then 1 else 0
